@@ -340,7 +340,7 @@ func (e *Engine) explore(h *HarnessCfg, workers int) *HarnessResult {
 
 				if solver == nil {
 					var err error
-					solver, err = NewSolver("z3", nil, e.timeoutMs)
+					solver, err = NewSolver(primarySolver, nil, e.timeoutMs)
 					if err != nil {
 						mu.Lock()
 						res.Inconcl = append(res.Inconcl, "cannot start solver: "+err.Error())
@@ -410,6 +410,7 @@ func addSolverStats(a, b *SolverStats) {
 	a.Sat += b.Sat
 	a.Unsat += b.Unsat
 	a.Unknown += b.Unknown
+	a.Fallbacks += b.Fallbacks
 	a.Time += b.Time
 	if b.MaxQuery > a.MaxQuery {
 		a.MaxQuery = b.MaxQuery
